@@ -45,6 +45,7 @@ type differ struct {
 }
 
 func diffSlice(a, b starlark.Sliceable, depth int) (*SliceableDiff, error) {
+	old, new := a, b
 	m, n := a.Len(), b.Len()
 	reverse := false
 	if m >= n {
@@ -67,7 +68,7 @@ func diffSlice(a, b starlark.Sliceable, depth int) (*SliceableDiff, error) {
 		return nil, err
 	}
 	return &SliceableDiff{
-		valueDiff: valueDiff{old: a, new: b},
+		valueDiff: valueDiff{old: old, new: new},
 		edits:     edits,
 	}, nil
 }
